@@ -161,7 +161,7 @@ def to_trace(sc, res, k):
 
 
 STALE = [False, "longer", "same", "ragged"]
-OPTS = ("form", "paths", "outdef", "qcdir", "nc_out", "odtype", "hexp", "kind", "rkw", "prev", "nruns", "k_filter", "reject", "wrot")
+OPTS = ("form", "paths", "outdef", "qcdir", "nc_out", "odtype", "hexp", "kind", "rkw", "prev", "nruns", "k_filter", "reject", "wrot", "fkw")
 
 
 def decorate(ctx, s, j):
@@ -178,8 +178,11 @@ def decorate(ctx, s, j):
         s["kind"] = ["3A", "NP2.1"][(j // 9) % 2]
     elif j % 4 == 3:
         s["hexp"] = True                            # a trace header passed explicitly
-    if s.get("kind") or s.get("hexp"):
-        s["compare"] = True                         # both are visible in the data columns only
+    if j % 7 == 5:
+        s["fkw"] = True                             # butter_kwargs / k_kwargs other than the defaults (the caller's dictionaries)
+        s["k_filter"] = s["k_filter"] or (j // 7) % 2 == 0
+    if s.get("kind") or s.get("hexp") or s.get("fkw"):
+        s["compare"] = True                         # all of them are visible in the data columns only
 
 
 def writers(s):
@@ -274,7 +277,7 @@ def choose(ctx, tuples):
             s["nruns"] = 3                          # a chain of three runs of the same recording
     row_formats(ctx, scs)
     # rejection needs >= 0.3 s of data: two dedicated runs
-    extra = [{"ns": 9100, "nbatch": 4096, "nproc": 3, "reject": True, "k_filter": True, "compare": True},
+    extra = [{"ns": 9100, "nbatch": 4096, "nproc": 3, "reject": True, "k_filter": True, "compare": True, "fkw": True},
              {"ns": 10240, "nbatch": 5120, "nproc": 5, "reject": True, "k_filter": False, "compare": True}]
     if not ctx.quick:
         extra += [{"ns": 12000, "nbatch": 3072, "nproc": 8, "reject": True, "k_filter": True, "compare": True},
